@@ -429,6 +429,13 @@ class DependencyTools():
                 # iterations.
                 return None
 
+            # The solution is only valid if the coefficient of the distance
+            # is a non-zero number: with a symbolic coefficient (`a(n*i)`)
+            # all iterations access the same location if it is zero.
+            if not sympy.diff(sympy_expressions[0] - sympy_expressions[1],
+                              d_var).is_number:
+                return None
+
             # Otherwise return the distance of the dependency (i.e. how many
             # loop iterations apart the same memory location will be accessed).
             # If this should be 0, it means no dependency. Though even here
